@@ -202,8 +202,8 @@ def run(chk, prog):
     if cls not in Wr or cls not in Rd:
         raise AnalysisBroken("RandomGenerator restart writer / reader not found")
     wfn, rfn = Wr[cls][0], Rd[cls][0]
-    wi = GR.Extractor(wfn, "w").run()
-    ri = GR.Extractor(rfn, "r").run()
+    wi = GR.Extractor(wfn, "w", lib).run()
+    ri = GR.Extractor(rfn, "r", lib).run()
     before = len(chk.obligations)
     c09.compare(chk, "X6", cls, wfn, rfn, wi, ri)
     written, read = c09.members_written(wi), c09.members_written(ri)
